@@ -16,7 +16,8 @@ models are written from the property statement with plain ints:
 """
 from ..core.pool import pmap, rotate
 from ..explore.bfs import explore, replay_path
-from ..sim.driver import elaborate, walk_state
+from ..gen.c17_platforms import PLATFORMS, HOOKS, UnknownCell, elaborate_for, overriding_platforms
+from ..sim.driver import walk_state
 
 ID = "C17"
 LEVEL = "model_checking"
@@ -104,7 +105,8 @@ class FFSpec:
         m.domains.od = cd
         m.submodules.dut = FFSynchronizer(i, o, o_domain="od", init=c["init"], reset_less=c["reset_less"], stages=c["stages"])
         self.o = Cat(o)
-        return LevelSystem(elaborate(m), [cd.clk], [i] + ([cd.rst] if self.has_rst else []))
+        frag, self.cells = elaborate_for(m, c.get("platform"), [cd])
+        return LevelSystem(frag, [cd.clk], [i] + ([cd.rst] if self.has_rst else []))
 
     def model_init(self, sysm):
         # (input level, reset level, clock level, delay line oldest first)
@@ -183,7 +185,8 @@ class AsyncSpec:
             self.w = Signal(name="w", init=1)
             m.d.od += self.w.eq(0)
         self.o = o
-        return LevelSystem(elaborate(m), [cd.clk], [i])
+        frag, self.cells = elaborate_for(m, c.get("platform"), [cd])
+        return LevelSystem(frag, [cd.clk], [i])
 
     def asserted(self, i):
         return (i == 1) if self.cfg["async_edge"] == "pos" else (i == 0)
@@ -279,7 +282,8 @@ class PulseSpec:
             clocks = [cdi.clk, cdo.clk]
         m.submodules.dut = ps
         self.o = ps.o
-        return LevelSystem(elaborate(m), clocks, [ps.i])
+        frag, self.cells = elaborate_for(m, c.get("platform"), [cdo] if c["same"] else [cdo, cdi])
+        return LevelSystem(frag, clocks, [ps.i])
 
     def model_init(self, sysm):
         # (i level, input clock level, output clock level, ages of the pending pulses oldest first,
@@ -439,16 +443,69 @@ def configs(rep):
                     if same and i_edge != o_edge:
                         continue
                     out.append({"kind": "PulseSynchronizer", "stages": stages, "i_edge": i_edge, "o_edge": o_edge, "same": same})
+    out += platform_configs(rep)
     return out
+
+
+# What the vendor overrides are held to. Xilinx lowers to plain flops (get_ff_sync) and FDPE chains (get_async_ff_sync):
+# the full contract. Altera hands FFSynchronizer to altera_std_synchronizer_bundle, a megafunction without init value,
+# synchronous-reset input or clock-edge choice: it is only explored where the generic lowering has the same parameters
+# (init=0, reset_less=True, posedge output domain); the other cases are reported to the maintainers, not encoded.
+def platform_configs(rep):
+    out = []
+    q = rep.quick
+    for plat in PLATFORMS:
+        xil = plat.startswith("xilinx")
+        full = plat in ("xilinx-vivado", "altera-quartus") or not q
+        for stages in (2, 3):
+            for width in ((1, 2) if full else (1,)):
+                for init in sorted({0, 1, (1 << width) - 1}) if xil else (0,):
+                    for reset_less in ((True, False) if xil else (True,)):
+                        for dom in (("sync", "async", "none") if full else ("sync",)):
+                            for edge in (("pos", "neg") if xil and full and stages == 2 else ("pos",)):
+                                out.append({"kind": "FFSynchronizer", "stages": stages, "width": width, "signed": False, "init": init,
+                                            "reset_less": reset_less, "dom": dom, "edge": edge, "platform": plat})
+            for i_init in (0, 1):
+                for ae in ("pos", "neg"):
+                    out.append({"kind": "AsyncFFSynchronizer", "stages": stages, "async_edge": ae, "i_init": i_init, "platform": plat})
+                for dom_async in (False, True):
+                    out.append({"kind": "ResetSynchronizer", "stages": stages, "async_edge": "pos", "i_init": i_init, "dom_async": dom_async,
+                                "platform": plat})
+            for same, i_edge, o_edge in ((False, "pos", "pos"), (False, "neg", "pos"), (True, "pos", "pos")) + \
+                                        (((False, "pos", "neg"), (True, "neg", "neg")) if xil else ()):
+                out.append({"kind": "PulseSynchronizer", "stages": stages, "i_edge": i_edge, "o_edge": o_edge, "same": same, "platform": plat})
+    return out
+
+
+def vendor_hook_owners():
+    """every class in amaranth/vendor/*.py that defines one of the CDC hooks (to notice an override nobody explores)"""
+    import importlib, inspect, os
+    import amaranth.vendor as V
+    owners = {}
+    for fn in sorted(os.listdir(os.path.dirname(V.__file__))):
+        if not fn.endswith(".py") or fn == "__init__.py":
+            continue
+        mod = importlib.import_module("amaranth.vendor." + fn[:-3])
+        for name, cls in inspect.getmembers(mod, inspect.isclass):
+            if cls.__module__ != mod.__name__:
+                continue
+            hooks = sorted(h for h in vars(cls) if h.startswith("get_") and h.endswith("_sync"))
+            if hooks:
+                owners[f"{mod.__name__}.{name}"] = hooks
+    return owners
 
 
 def run_config(task):
     d, replay_n = task
     spec = make_spec(d)
-    res = explore(spec, procs=1, replay_n=replay_n, cap_states=2_000_000)
+    try:
+        res = explore(spec, procs=1, replay_n=replay_n, cap_states=2_000_000)
+    except UnknownCell as e:
+        return {"cfg": d, "cell_error": str(e)}
     out = {"cfg": d, "states": res.states, "transitions": res.transitions, "depth": res.max_depth, "flags": sorted(res.flags),
            "capped": res.capped, "validated": res.traces_validated, "wall": round(res.wall, 2), "errors": [], "mismatch": [],
            "neg": None}
+    out["cells"] = sorted({f"{c.type}x{sum(1 for k in spec.cells if k.type == c.type)}" for c in spec.cells}) if "platform" in d else []
     for errs, path in res.errors:
         out["errors"].append({"errs": errs, "path": [list(spec.actions[i]) for i in path]})
     for path, want, got in res.replay_mismatch[:3]:
@@ -468,9 +525,18 @@ def run(rep):
     flags = {}
     seen_kinds = {}
     failed_kinds = set()
+    plats = {}
     for r in pmap(run_config, tasks, rep.procs):
         d = r["cfg"]
         tag = _tag(d)
+        if "cell_error" in r:
+            failed_kinds.add(d["kind"])
+            rep.violation(f"{tag}:vendor-cell", f"{tag}: the platform lowering uses a vendor cell in a way that has no counterpart in the "
+                          f"generic lowering: {r['cell_error']}", {"cfg": d, "cell": True})
+            continue
+        if "platform" in d:
+            rep.add("platform_configurations", 1)
+            plats.setdefault(d["platform"], {}).setdefault(d["kind"], set()).update(r["cells"])
         rep.add("states", r["states"])
         rep.add("transitions", r["transitions"])
         rep.add("traces_validated_against_impl", r["validated"])
@@ -525,6 +591,19 @@ def run(rep):
         for n in missing:
             rep.require(False, f"{kind}: antecedent {n} never exercised")
     rep.require(rep.cov.get("negedge_domain_elaborations", 0) > 0, "negedge-domain refusals never attempted")
+    # vendor overrides: every class defining a CDC hook is explored, and every platform really went through its hooks
+    owners = vendor_hook_owners()
+    rep.setcov("vendor_hook_owners", owners)
+    covered = {f"{v[0]}.{v[1]}" for v in PLATFORMS.values()}
+    rep.require(set(owners) <= covered, f"vendor classes with CDC hooks that are not explored: {sorted(set(owners) - covered)}")
+    rep.require(all(set(h) <= set(HOOKS) for h in owners.values()), f"unknown CDC hook among {owners}")
+    rep.require(all(hs == list(HOOKS) for hs in overriding_platforms().values()), "a listed platform does not override both hooks")
+    rep.setcov("vendor_cells_seen", {p: {k: sorted(v) for k, v in sorted(ks.items())} for p, ks in sorted(plats.items())})
+    for p in PLATFORMS:
+        rep.require(set(plats.get(p, ())) >= {"FFSynchronizer", "AsyncFFSynchronizer", "ResetSynchronizer", "PulseSynchronizer"} or failed_kinds,
+                    f"platform {p}: not every primitive was explored")
+    rep.assume("vendor cells (FDPE, altera_std_synchronizer[_bundle]) are replaced during elaboration by behavioural models written from the "
+               "vendor documentation (vf/gen/c17_platforms.py); AlteraPlatform.get_ff_sync is explored only for init=0, reset_less=True, posedge domains")
     rep.assume("state injection through ctx.set is validated by replaying shortest paths from reset on fresh simulators")
     rep.assume("input changes and clock edges are interleaved, never simultaneous; the two PulseSynchronizer clocks may toggle simultaneously")
     rep.assume("PulseSynchronizer: an input pulse is an active input-domain edge with i=1; an active output edge coinciding with the later of two "
@@ -538,6 +617,12 @@ def replay(payload):
         r = negedge_case(d)
         return [r] if r else []
     spec = make_spec(d)
+    if payload.get("cell"):
+        try:
+            spec.build()
+        except UnknownCell as e:
+            return [f"vendor-cell: {e}"]
+        return []
     idx = [spec.actions.index(tuple(a)) for a in payload["path"]]
     key, errs = replay_path(spec, idx)
     out = [f"at action {spec.actions[i]}: {e}" for i, e in errs]
